@@ -137,7 +137,7 @@ def template_source(prog, chk):
     chk.touch(pt)
     gets = R.calls_to(pt, R.path_is("svgdx::events::Tag::get_element"))
     ups = R.calls_to(pt, R.path_is(ue_path))
-    gens = R.calls_to(pt, lambda c: c.decl_path == "svgdx::transform::EventGen::generate_events")
+    gens = R.calls_to(pt, lambda c: (c.decl_path == "svgdx::transform::EventGen::generate_events" or c.path.endswith(" as svgdx::transform::EventGen>::generate_events")))
     chk.floor("A13.raw-registration", min(len(gets), len(ups), len(gens)), 1, "get_element/update_element/generate_events in process_tags")
     if gets and ups and gens:
         gb, gt, _ = gets[0]
